@@ -459,13 +459,16 @@ static XNode randomTree(vh::Rng& g, int depth, bool cond, bool hexref) {
     int na = g.below(4);
     for (int i = 0; i < na; ++i) { std::string nm = safeName(g) + std::to_string(i); std::string v = randomText(g, 12, false, true);
         switch (g.below(8)) { case 0: v += "\""; break; case 1: v += "'"; break; case 2: v = "'" + v + "\""; break; case 3: v += "\"q\" 'p'"; break; default: break; }
-        if (hexref && g.below(3) == 0) v += "&#x41;"; else if (!hexref) { size_t p; while ((p = v.find("&#x")) != std::string::npos) v.erase(p, 1); }
+        // only well-formed references are planted in trees: a dangling "&#x" makes GetEntity search the rest of the *document* for ';'
+        // (it can swallow following attributes), which the per-value model cannot predict; dangling forms are covered by xenc/xdec
+        { size_t p; while ((p = v.find("&#x")) != std::string::npos) v.erase(p, 1); }
+        if (hexref && g.below(3) == 0) v += "&#x41;";
         n.attrs.push_back({nm, v}); }
     int nk = depth > 0 ? g.below(4) : 0;
     if (nk == 0) {
         std::string t = randomText(g, 16, cond, true);
-        if (hexref && g.coin()) t += (cond && !t.empty() ? "" : "") + std::string("&#x42;z");
-        else if (!hexref) { size_t p; while ((p = t.find("&#x")) != std::string::npos) t.erase(p, 1); }
+        { size_t p; while ((p = t.find("&#x")) != std::string::npos) t.erase(p, 1); }
+        if (hexref && g.coin()) t += std::string("&#x42;z");
         if (blank(t)) t = t.empty() || g.coin() ? "" : "v";     // white-space-only values are dropped by TinyXML (TiXmlText::Blank): not generated here
         n.text = t;
     }
@@ -551,6 +554,13 @@ int main(int argc, char** argv) {
         XNode r4; r4.kind = 0; r4.tag = "root"; r4.attrs.push_back({"a", "x\ry"}); XNode c4; c4.kind = 0; c4.tag = "t"; c4.text = "a\rb\r\nc"; r4.kids.push_back(c4);
         xtree(false, r4, true); xtree(false, r4, false, 1); xtree(true, r4, false, 1);
     }
+    {   // shapes whose reader is defective, every run: RowVector_ (reads into a copy) and SymMat with an infinite entry
+        RowVector rv(3); rv[0] = 1.5; rv[1] = -2; rv[2] = 0.25; unfRT<double>(rv, "R", 1, "RowVector", g, false);
+        SymMat33 sm(1, 2, 3, 4, 5, 6); unfRT<double>(sm, "S", 9, "SymMat33", g, false);
+        SymMat33 si(1, 2, Infinity, 4, 5, 6); unfRT<double>(si, "S", 9, "SymMat33.infinite", g, false);
+        SymMat33 sn(1, NaN, 3, 4, 5, NaN); unfRT<double>(sn, "S", 9, "SymMat33", g, false);
+        SymMat33 sh(1, -1.7976931348623157e308, 3, 4, 1e308, 1.7976931348623157e308); unfRT<double>(sh, "S", 9, "SymMat33.huge", g, false);
+    }
     // ---- random records
     for (long k = 0; k < args.n; ++k) {
         int stream = g.below(24);
@@ -581,8 +591,8 @@ int main(int argc, char** argv) {
                 case 9: { Array_<int> a; int n = g.below(6); for (int i = 0; i < n; ++i) a.push_back((int)(int32_t)g.next() >> g.below(31)); unfRT<int>(a, "A", 1, "Array_int", g); break; }
                 case 10: { Vec<2, float> v(randomFloat(g, c), randomFloat(g, c)); unfRT<float>(v, "F", 2, "Vec2f", g); break; }
                 case 11: { RowVector v(1 + g.below(5)); for (int i = 0; i < v.size(); ++i) v[i] = randomDouble(g, c); unfRT<double>(v, "R", 1, "RowVector", g, false); break; }
-                case 12: { SymMat33 m; bool fin = true; for (int i = 0; i < 3; ++i) for (int j = 0; j <= i; ++j) { double x = g.below(4) ? g.signedMag(1e-3, 1e3) : randomDouble(g, c); m(i, j) = x; if (std::isinf(x)) fin = false; }
-                           unfRT<double>(m, "S", 9, fin ? "SymMat33" : "SymMat33.infinite", g, false); break; }
+                case 12: { SymMat33 m; bool fin = true, huge = false; for (int i = 0; i < 3; ++i) for (int j = 0; j <= i; ++j) { double x = g.below(4) ? g.signedMag(1e-3, 1e3) : randomDouble(g, c); m(i, j) = x; if (std::isinf(x)) fin = false; if (i != j && std::isfinite(x) && std::fabs(x) > 8.9e307) huge = true; }
+                           unfRT<double>(m, "S", 9, !fin ? "SymMat33.infinite" : huge ? "SymMat33.huge" : "SymMat33", g, false); break; }
                 case 13: { Matrix m(1 + g.below(3), 1 + g.below(4)); for (int i = 0; i < m.nrow(); ++i) for (int j = 0; j < m.ncol(); ++j) m(i, j) = randomDouble(g, c); unfRT<double>(m, "F", m.nrow() * m.ncol(), "Matrix", g); break; }
                 case 14: { Row<3> r(randomDouble(g, c), randomDouble(g, c), randomDouble(g, c)); unfRT<double>(r, "F", 3, "Row3", g); break; }
                 case 15: { Vector_<Vec3> v(g.below(4)); for (int i = 0; i < v.size(); ++i) v[i] = Vec3(randomDouble(g, c), randomDouble(g, c), randomDouble(g, c)); unfRT<double>(v, "A", 3, "Vector_Vec3", g); break; }
